@@ -10,8 +10,10 @@ tvars == <<vars, l>>
 TraceInit ==
     /\ l = 1
     /\ chain = [r \in Roots |-> 0]
+    /\ parent = [r \in Roots |-> NoRoot]
     /\ map = Empty
     /\ now = 0
+    /\ ehead = NoRoot /\ heads = {}
     /\ last = NoReply
     /\ InitHWM
 
@@ -24,14 +26,42 @@ StateMatches == map' = LoggedMap(Trace[l])
 TraceReset ==
     /\ IsEvent("Reset")
     /\ chain' = [r \in Roots |-> Trace[l].chain[r]]
+    /\ parent' = [r \in Roots |-> Trace[l].parent[r]]
     /\ map' = Empty
     /\ now' = Trace[l].now
+    /\ ehead' = NoRoot /\ heads' = {}
     /\ last' = NoReply
 
 TraceBlockEvent ==
     /\ IsEvent("BlockEvent")
     /\ BlockEvent(Trace[l].root)
     /\ StateMatches
+
+\* the controller's block event handler wrote to the cache (driver in the controller's package: the real
+\* HandleBlockEvent; driver in the cache's package: SetBlockRootToSlot, the call that handler makes)
+TraceCtlBlockEvent ==
+    /\ IsEvent("CtlBlockEvent")
+    /\ CtlBlockEvent(Trace[l].root)
+    /\ StateMatches
+
+\* a head event: ok = the fake node handed out the signed block; the logged map and the logged execution
+\* head decide which of the outcomes HeadEvent allows was taken - none, if something untrue was cached
+TraceHeadEvent ==
+    /\ IsEvent("HeadEvent")
+    /\ HeadEvent(Trace[l].root, Trace[l].ok)
+    /\ ehead' = Trace[l].ehead
+    /\ StateMatches
+
+\* the controller's head event handler (it does not write to the cache today; whatever it caches must be true)
+TraceCtlHeadEvent ==
+    /\ IsEvent("CtlHeadEvent")
+    /\ CtlHeadEvent(Trace[l].root)
+    /\ StateMatches
+
+TraceExecHead ==
+    /\ IsEvent("ExecHead")
+    /\ ExecHead
+    /\ last'.head = Trace[l].head
 
 \* which of the three lookup actions applies is determined by the state and by the logged
 \* outcome of the header fetch ("none" = the provider was not called)
@@ -54,9 +84,10 @@ TraceAdvance ==
     /\ IsEvent("Advance")
     /\ now' = Trace[l].now
     /\ last' = NoReply
-    /\ UNCHANGED <<chain, map>>
+    /\ UNCHANGED <<chain, parent, map, ehead, heads>>
 
-TraceNext == TraceReset \/ TraceBlockEvent \/ TraceLookup \/ TraceClean \/ TraceAdvance
+TraceNext == \/ TraceReset \/ TraceBlockEvent \/ TraceLookup \/ TraceClean \/ TraceAdvance
+             \/ TraceCtlBlockEvent \/ TraceHeadEvent \/ TraceCtlHeadEvent \/ TraceExecHead
 
 TraceSpec == TraceInit /\ [][TraceNext]_tvars
 
